@@ -74,6 +74,10 @@ def bt(t):
         return float('nan')
     if k == 'b':
         return t[1].encode('ascii')
+    if k == 'ba':
+        return bytearray(t[1].encode('ascii'))       # not a string type: no Regex accepts it
+    if k == 'mv':
+        return memoryview(t[1].encode('ascii'))
     if k in ('i', 's', 'f'):
         return t[1]
     if k == 'n':
@@ -364,8 +368,10 @@ def mutations(t):
     """every one-edit mutation of a target term"""
     k = t[0]
     out = []
+    if k in ('ba', 'mv'):
+        return []
     if k == 'b':
-        return [['s', t[1]], ['b', t[1] + 'b'], ['b', ''], ['i', 1]]          # the same text as str: a Regex built from bytes must REJECT it
+        return [['s', t[1]], ['b', t[1] + 'b'], ['b', ''], ['i', 1], ['ba', t[1]], ['mv', t[1]]]          # the same text as str: a Regex built from bytes must REJECT it
     if k in 'isnf':
         out.append(OTHER_LEAF[k])
         if k == 's':
